@@ -193,16 +193,20 @@ def apalache_steps(chk: Check, tier: str):
     import shutil, subprocess, tempfile, re
     exe = shutil.which("apalache-mc")
     out = {}
-    actions = ["NextMult"] if tier == "quick" else ["NextMult", "NextScaled", "NextScaledPow2"]
+    # (action, init, invariant): the range invariant for the three multiplicative kinds, and "never further beyond a
+    # limit it has reached" for sharp dependence from ANY parameter value and ANY non-negative magnitudes
+    steps = [("NextMult", "IndInit", "IndInv"), ("NextScaled", "IndInit", "IndInv"), ("NextSharp", "SharpInit", "SharpInv")]
+    if tier != "quick":
+        steps.append(("NextScaledPow2", "IndInit", "IndInv"))
     if not exe:
         chk.extra["apalache_inductive_step"] = "apalache-mc not found"
         return
-    for act in actions:
+    for act, init, inv in steps:
         work = tempfile.mkdtemp(prefix="verif-apa-")
         try:
             shutil.copy(tlc.SPEC_DIR / "UpdaterInd.tla", work)
             try:
-                p = subprocess.run(["timeout", "120", exe, "check", "--init=IndInit", "--inv=IndInv", f"--next={act}",
+                p = subprocess.run(["timeout", "120", exe, "check", f"--init={init}", f"--inv={inv}", f"--next={act}",
                                     "--length=1", f"--out-dir={work}/out", "UpdaterInd.tla"], cwd=work,
                                    capture_output=True, text=True, timeout=150)
                 m = re.search(r"The outcome is: (\w+)", p.stdout + p.stderr)
